@@ -286,3 +286,55 @@ PROPS["C10"] = pbt(
     thorough={"cases": 2000000},
     floors={"failing_getter": 0.20, "bool_getter_on_mixed_case": 0.15, "used_in_merge": 0.20, "key_without_value": 0.10},
 )
+
+def _c08_modes(stride, nsh):
+    m = [["bounds"]]
+    for t in ("int32", "uint32", "float"):
+        for k in range(nsh):
+            m.append(["exh", t, str(k), str(nsh), str(stride)])
+    return m
+
+
+PROPS["C08"] = pbt(
+    "pbt_c08", "pbt_c08.cpp", modes_variant="o2",
+    rule=("in-memory set->get for 32-bit patterns of int32, uint32 and float: every 1024th pattern with a "
+          "seed-dependent offset (quick), EVERY pattern (thorough, exhaustive: 3 x 2^32); boundary families of all six "
+          "numeric types (type limits +-2, 2^k, 2^k+-1, 10^k+-1, single-bit patterns, smallest/largest normal and "
+          "subnormal magnitudes, +-0, +-inf, NaN) and every letter-case variant of the boolean words, in memory and "
+          "through a written file; rapidcheck batches of random 64-bit patterns (exponents spread, subnormals "
+          "forced) through all six set/get pairs and objects of 20-220 typed keys written and read back. "
+          "evaluations = values tried; non-trivial: every batch/sub-run (values outside {0,+-1} dominate); distinct = "
+          "hash of the batch / sub-run id"),
+    technique="exhaustive / strided enumeration of 32-bit types + property-based round-trip testing of 64-bit types and file round trips, rapidcheck",
+    level_text=("round-trip oracle (set -> get, set -> write -> read -> get) with bit-pattern equality (NaN == NaN). "
+                "Thorough enumerates all 2^32 values of int32, uint32 and float (reported under exhaustive_subspaces "
+                "with exact counts); 64-bit types are sampled: boundary families + 2M/200M random patterns."),
+    level_note="exhaustive loops run against an -O2 build of /repo's sources without sanitizers; the sampled parts under ASan+UBSan",
+    quick={"cases": 12000, "modes": _c08_modes(1024, 4)},
+    thorough={"cases": 600000, "modes": _c08_modes(1, 16)},
+    floors={"subnormal_double": 0.10, "file_roundtrip": 0.30},
+)
+
+PROPS["C09"] = pbt(
+    "pbt_c09", "pbt_c09.cpp", modes_variant="o2",
+    rule=("integer literals: sign {none,+,-} x base {10, 8 (leading 0), 16 (0x/0X, mixed-case digits)} x magnitude "
+          "{every type limit +-2, 2^31..2^33 and 2^63..2^65 neighbourhoods, small numbers, random 1..25-digit strings}, "
+          "stored with econf_setStringValue (10% read from a file), through all four integer getters and their Def "
+          "variants, expected value computed exactly with __int128; floating literals constructed from a target bit "
+          "pattern with a known answer (exact decimal expansion, just above / just below / exactly at the midpoint to "
+          "the successor, 17/9-digit renderings; normal and subnormal; float and double); boolean texts (case "
+          "variants, djb2 neighbours of the words, random printable strings, specials) and, exhaustively, every string "
+          "of length <=3 (quick) / <=4 (thorough) over a 45-character reduced alphabet; keys without value through "
+          "every typed getter. non-trivial = literal near a limit / wider than 32 bits / not decimal / not an exact "
+          "expansion / text that is no boolean word; distinct = hash of the literal"),
+    technique="property-based testing against exact reference arithmetic (__int128, big-decimal construction of float literals) + bounded-exhaustive boolean strings, rapidcheck",
+    level_text=("generated literals with exactly known answers, no second strtod as reference; 400k (quick) / 12M "
+                "(thorough) literals plus all 93k / 4.2M short strings through the boolean getter (exhaustive for the "
+                "stated alphabet and length)."),
+    level_note="overflowing float literals carry no claim beyond 'not success with a finite number' and are not generated; literals have nothing after them",
+    quick={"cases": 400000, "modes": [["boolexh", "3", str(k), "4"] for k in range(4)]},
+    thorough={"cases": 12000000, "modes": [["boolexh", "4", str(k), "16"] for k in range(16)]},
+    floors={"out_of_int32_range|sub_integer": 0.30, "octal|sub_integer": 0.15, "hex|sub_integer": 0.20,
+            "negative_for_unsigned|sub_integer": 0.10, "bool_djb2_neighbour|sub_bool": 0.20,
+            "subnormal_literal|sub_float": 0.08, "lit_tie|sub_float": 0.08},
+)
